@@ -1,5 +1,7 @@
 """Run a set of contracts against the repository source and summarise the obligations."""
+import ast
 import importlib
+import json
 import os
 import sys
 import time
@@ -26,6 +28,18 @@ def module_globals_for(repo, relfile):
     return dict(vars(mod))
 
 
+def _load_decorators():
+    p = os.path.join(os.path.dirname(os.path.dirname(os.path.abspath(__file__))), 'contracts', 'decorators.json')
+    try:
+        with open(p) as f:
+            return json.load(f)
+    except OSError:
+        return {}
+
+
+DECORATORS = _load_decorators()
+
+
 def verify(contracts, repo, jobs=16, both=False):
     """returns report dict: functions[], obligations[], counts, undecided reasons"""
     t0 = time.time()
@@ -39,6 +53,14 @@ def verify(contracts, repo, jobs=16, both=False):
             d = Driver(c, repo, g)
             obs = d.run()
             entry.update(sha=d.src.sha, line=d.src.lineno, paths=d.paths, loops=len(d.loops))
+            # decorators change what a call of the function does (property -> cache_in, lru_cache, ...) without changing its body:
+            # a contract is about the body, so a decorator list that differs from the recorded one puts the function outside it
+            decos = [ast.unparse(x) for x in getattr(d.src.node, 'decorator_list', [])]
+            entry['decorators'] = decos
+            want = DECORATORS.get(f'{c.file}::{c.qualname}')
+            if want is not None and decos != want:
+                problems.append(f'{c.qualname}: decorator list changed from {want} to {decos}: the contract covers the function body only '
+                                '(outside the modelled subset)')
             if d.unsupported:
                 entry['unsupported'] = d.unsupported[:5]
                 problems.append(f'{c.qualname}: outside the modelled subset: {d.unsupported[0]}')
